@@ -18,8 +18,8 @@ ID = "C07"
 CASES = {"quick": 5000, "thorough": 50000}
 FLOOR = {"quick": 3500, "thorough": 35000}
 FLOOR_COUNTERS = {
-    "quick": {"block_diagonal_tables_with_blocks_of_more_than_20_items": 400, "staged_fits_with_a_refused_warm_start": 300, "numpy_scalar_parameters": 800, "configured_not_by_constructor": 2000, "non_default_containers": 2000, "integer_typed_inputs": 300, "picks_judged": 12000, "stale_score_picks": 3000, "residual_checks": 3000, "relation_fits": 2000, "estimators_with_a_past": 1000, "small_unit_cases": 220},
-    "thorough": {"block_diagonal_tables_with_blocks_of_more_than_20_items": 4000, "staged_fits_with_a_refused_warm_start": 3500, "numpy_scalar_parameters": 9000, "configured_not_by_constructor": 20000, "non_default_containers": 20000, "integer_typed_inputs": 3000, "picks_judged": 90000, "stale_score_picks": 10000, "residual_checks": 15000, "relation_fits": 10000, "estimators_with_a_past": 10000, "small_unit_cases": 2200},
+    "quick": {"tables_with_more_than_65536_items": 3, "block_diagonal_tables_with_blocks_of_more_than_20_items": 400, "staged_fits_with_a_refused_warm_start": 300, "numpy_scalar_parameters": 800, "configured_not_by_constructor": 2000, "non_default_containers": 2000, "integer_typed_inputs": 300, "picks_judged": 12000, "stale_score_picks": 3000, "residual_checks": 3000, "relation_fits": 2000, "estimators_with_a_past": 1000, "small_unit_cases": 220},
+    "thorough": {"tables_with_more_than_65536_items": 30, "block_diagonal_tables_with_blocks_of_more_than_20_items": 4000, "staged_fits_with_a_refused_warm_start": 3500, "numpy_scalar_parameters": 9000, "configured_not_by_constructor": 20000, "non_default_containers": 20000, "integer_typed_inputs": 3000, "picks_judged": 90000, "stale_score_picks": 10000, "residual_checks": 15000, "relation_fits": 10000, "estimators_with_a_past": 10000, "small_unit_cases": 2200},
 }
 RULE = (
     "case = (CUR | PCov-CUR) x (feature | sample), matrix family with rank above the request (1 in 8: block-diagonal tables, every block above 20 items, mostly mixing=1), k in {1,2,3}, mixing in "
@@ -79,12 +79,21 @@ def _matrix(rng, n, m, kind):
 def gen(rng, tier, index):
     direction = ("feature", "sample")[index % 2]
     cls = ("CUR", "PCovCUR")[(index // 2) % 2]
+    huge = index % 1250 == 7  # more than 2^16 items on the long side, a handful on the short one (plain CUR only: the PCov variants build an items x items matrix)
+    if huge:
+        direction, cls = ("feature", "sample")[(index // 1250) % 2], "CUR"
     hi = 14 if tier == "quick" else 26
     n, m = int(rng.integers(4, hi)), int(rng.integers(4, hi))
     kind = gens.pick(rng, KINDS)
     if index % 16 in (2, 3):
         kind = "blocks"
     X = _matrix(rng, n, m, kind)
+    if huge:
+        kind = "more_than_65536_items"
+        long_, short_ = int(rng.integers(66000, 70000)), int(rng.integers(6, 11))
+        X = rng.normal(size=(long_, short_)) * np.logspace(0, -0.7, short_)
+        X[: short_ * 3] *= 4.0  # a few items stand out, so that the leading picks are well separated
+        X = X if direction == "sample" else np.ascontiguousarray(X.T)
     n, m = X.shape
     unit = 1.0
     if rng.random() < 0.25 or (kind == "copies" and rng.random() < 0.5):
@@ -108,6 +117,9 @@ def gen(rng, tier, index):
     kw["n_to_select"] = int(rng.integers(1, max(2, min(N, rank - 1)) + 1))
     if kind == "blocks":
         kw["n_to_select"] = int(rng.integers(3, 9))
+    if huge:
+        kw["k"], kw["recompute_every"], kw["n_to_select"] = int(gens.pick(rng, (2, 3))), 1, int(rng.integers(2, 4))
+        kw.pop("tolerance", None)
     past = None
     if rng.random() < 0.3:  # the estimator was fitted before: other data of the same shape, another request
         past = {"X": forms.sibling_or(X, rng.normal(size=X.shape), unit), "y": None if y is None else rng.normal(size=len(X)), "n": int(rng.integers(1, max(2, min(N, rank - 1)) + 1))}
@@ -250,6 +262,8 @@ def run(case, j):
         j.note("numpy_scalar_parameters")
     if case["kind"] == "blocks":
         j.note("block_diagonal_tables_with_blocks_of_more_than_20_items")
+    if case["kind"] == "more_than_65536_items":
+        j.note("tables_with_more_than_65536_items")
     axis = sel.axis_of(spec)
     kw = spec["kw"]
     j.tag(f"{spec['dir']}:{spec['cls']}", f"data:{case['kind']}", f"re:{kw['recompute_every']}", f"k:{kw['k']}", f"mixing:{kw.get('mixing')}")
